@@ -14,7 +14,7 @@ cfg == [aw |-> AW, dw |-> 1, subs |-> key]
 NS == Len(key)
 Inputs == [addr : 0..7, r_stb : {0, 1}, w_stb : {0, 1}, w_data : BitVecs(1), sub_r_data : [1..NS -> BitVecs(1)]]
 \* what the specification says the decoder outputs (the canonical observation)
-Out(i) == [r_data |-> [b \in 1..1 |-> IF \E k \in 1..NS : i.sub_r_data[k][b] = 1 THEN 1 ELSE 0],
+Out(i) == [stray |-> 0, r_data |-> [b \in 1..1 |-> IF \E k \in 1..NS : i.sub_r_data[k][b] = 1 THEN 1 ELSE 0],
            subs |-> [k \in 1..NS |-> [addr |-> i.addr % Pow2(key[k].aw), w_data |-> i.w_data,
                                        r_stb |-> IF k \in Selected(cfg, i.addr) THEN i.r_stb ELSE 0,
                                        w_stb |-> IF k \in Selected(cfg, i.addr) THEN i.w_stb ELSE 0]]]
